@@ -321,6 +321,9 @@ def r05_5(ctx):
     from .c12 import immediate_read_protocol
 
     immediate_read_protocol(ctx)  # a statement that copies an immediate sees what earlier statements stored in it
+    from .c03 import r03_3
+
+    r03_3(ctx)  # "with the C result converted to the target type": every write - variable, register, memory - goes through the conversion to its target
     idx = get_index(ctx.env)
     et = idx.enum_table("EffectType")
     for kind, dcls, exp in (("SETL", "LocalVar", "SETL(<dest.vm_id()>, <src.il_read()>)"), ("SETG", "Register", "WRITE_REG(bundle, <dest.get_op_var()>, <src.il_read()>)")):
